@@ -29,6 +29,8 @@
   and missing values in one-bit fields (both decode differently compressed / uncompressed).
 -/
 import BufrModel.Lemmas.SimComp
+import BufrModel.Lemmas.SimCompDec
+import BufrModel.Props.C03Walk
 namespace Bufr
 
 /-- the checked compressed encoder on a whole data section -/
@@ -168,5 +170,213 @@ example :
       = .ok (.ok [[.int 0], [.int 255]]) := by decide +kernel
 
 end C05WalkEx
+
+/-! ## The decoder half: compressed round trip and TRANSPARENCY
+
+  The statements are about `encodeCompressedT`: the compressed encoder CHECKED FOR TRANSPARENCY
+  (`encPrimsCT`, `Lemmas/SimCompDec.lean`), i.e. `encodeCompressedX` with ghost rows (per subset, the
+  values a decoder returns) and the further refusals listed at `encPrimsCT`: fields wider than 64
+  bits; a present numeric / code / flag value that is the all-ones pattern of a field wider than one
+  bit; a missing value in a one-bit field; a replication factor or bitmap entry whose field does not
+  read back as supplied.  Each is shown necessary by an example below (`C05WalkTEx`).  Whenever it
+  succeeds,
+    * `encodeCompressedX`, hence the real compressed encoder, succeeds with the same report and
+      bits                                                              (`C05_walk_eraseT`);
+    * the compressed decoder, run on those bits followed by anything, consumes exactly them and
+      returns for every subset the same labels and links and the canonical values
+                                                                        (`C05_walk_compressed_roundtrip`);
+    * the checked uncompressed encoder accepts every subset alone, with the same labels, links and
+      the SAME canonical values                                         (`C05_walk_subset_canon`);
+    * hence both forms decode to the same `List SubsetOut`               (`C05_walk_transparent`,
+                                                                         `C05_walk_transparent_eq`). -/
+
+/-- ghost rows at the start: one empty row per subset -/
+def ghostInit (valss : List (List Val)) : List (Nat × List Val) := valss.map (fun _ => (0, []))
+
+/-- the compressed encoder checked for transparency on a whole data section: the report per subset,
+    the canonical values per subset (what a decoder returns), the bits (most recent first) -/
+def encodeCompressedT (tmpl : List Desc) (valss : List (List Val)) :
+    CM (List SubsetOut × List (List Val) × Bits) :=
+  match walkList encPrimsCT tmpl { bits := [], vals := valss, forced := ghostInit valss } with
+  | .error e => .error e
+  | .ok s => .ok (valss.map (fun l => { descs := s.descs.reverse, vals := l, links := s.links.reverse }),
+                  s.forced.map (·.2.reverse), s.bits)
+
+/-- whatever `encodeCompressedT` accepts, `encodeCompressedX` accepts, with the same report and bits -/
+theorem C05_walk_eraseT {t : List Desc} {valss : List (List Val)}
+    {os : List SubsetOut} {canons : List (List Val)} {b : Bits}
+    (h : encodeCompressedT t valss = .ok (os, canons, b)) : encodeCompressedX t valss = .ok (os, b) := by
+  unfold encodeCompressedT at h
+  unfold encodeCompressedX
+  cases hw : walkList encPrimsCT t { bits := [], vals := valss, forced := ghostInit valss } with
+  | error e => rw [hw] at h; cases h
+  | ok s =>
+    rw [hw] at h
+    cases h
+    obtain ⟨t', ht', h1, h2, h3, h4, h5, h6⟩ :=
+      walk_sim primSim_ct_cx (s := { bits := [], vals := valss, forced := ghostInit valss })
+        (t := { bits := [], vals := valss }) ⟨rfl, rfl, rfl, rfl, rfl, rfl⟩ hw
+    rw [ht']
+    simp only [h2, h3, h6]
+
+/-- the decoder run that mirrors a run of the checked compressed encoder -/
+theorem C05_walk_dec_run {t : List Desc} {valss : List (List Val)} {s : St}
+    (hw : walkList encPrimsCT t { bits := [], vals := valss, forced := ghostInit valss } = .ok s)
+    (rest : Bits) :
+    ∃ t', walkList decPrimsC t { bits := s.bits.reverse ++ rest, vals := List.replicate valss.length [] }
+        = .ok t' ∧ RelCD valss.length rest s t' := by
+  obtain ⟨i, ⟨hW, out, hi⟩, hsim⟩ :=
+    walk_sim_ix (primSim_ct_dec (s.bits.reverse ++ rest) rest valss.length) hw (j := rest) ⟨rfl, [], rfl⟩
+  have hi' : i = s.bits.reverse ++ rest := by simpa using hW
+  subst hi'
+  exact hsim { bits := s.bits.reverse ++ rest, vals := List.replicate valss.length [] }
+    ⟨rfl, rfl, rfl, rfl, by simp [ghostInit, List.map_const'], by simp [ghostInit], rfl⟩
+
+theorem withCanon_map (D : List DDesc) (K : List (Nat × Nat)) (g : (Nat × List Val) → List Val) :
+    ∀ (valss : List (List Val)) (forced : List (Nat × List Val)), forced.length = valss.length →
+      withCanon (valss.map (fun l => ({ descs := D, vals := l, links := K } : SubsetOut))) (forced.map g)
+        = forced.map (fun x => ({ descs := D, vals := g x, links := K } : SubsetOut))
+  | [], [], _ => rfl
+  | [], _ :: _, h => by simp at h
+  | _ :: _, [], h => by simp at h
+  | v :: vs, f :: fs, h => by
+    have ih := withCanon_map D K g vs fs (by simpa using h)
+    simp only [withCanon, List.map_cons, List.zipWith_cons_cons] at ih ⊢
+    rw [ih]
+
+/-- COMPRESSED ROUND TRIP: what the checked compressed encoder accepts is written by the compressed
+    encoder, and the compressed decoder reads it back — for every subset the same descriptor labels,
+    the same attribute links, the canonical values — leaving exactly what followed. -/
+theorem C05_walk_compressed_roundtrip {t : List Desc} {valss : List (List Val)}
+    {os : List SubsetOut} {canons : List (List Val)} {b : Bits}
+    (h : encodeCompressedT t valss = .ok (os, canons, b)) :
+    encodeCompressed t valss = .ok (os, b) ∧
+      ∀ rest, decodeCompressed t valss.length (b.reverse ++ rest) = .ok (withCanon os canons, rest) := by
+  refine ⟨C05_walk_erase (C05_walk_eraseT h), fun rest => ?_⟩
+  unfold encodeCompressedT at h
+  cases hw : walkList encPrimsCT t { bits := [], vals := valss, forced := ghostInit valss } with
+  | error e => rw [hw] at h; cases h
+  | ok s =>
+    rw [hw] at h
+    cases h
+    obtain ⟨t', ht', h1, h2, h3, h4, h5, h6, h7⟩ := C05_walk_dec_run hw rest
+    unfold decodeCompressed
+    rw [ht']
+    simp only [St.outs, h2, h3, h4, h5, withCanon_map _ _ _ valss s.forced h6, List.map_map]
+    rfl
+
+/-- the number of subsets reported -/
+theorem C05_walk_T_lengths {t : List Desc} {valss : List (List Val)}
+    {os : List SubsetOut} {canons : List (List Val)} {b : Bits}
+    (h : encodeCompressedT t valss = .ok (os, canons, b)) :
+    os.length = valss.length ∧ canons.length = valss.length := by
+  unfold encodeCompressedT at h
+  cases hw : walkList encPrimsCT t { bits := [], vals := valss, forced := ghostInit valss } with
+  | error e => rw [hw] at h; cases h
+  | ok s =>
+    rw [hw] at h
+    cases h
+    obtain ⟨t', _, _, _, _, _, _, h6, _⟩ := C05_walk_dec_run hw []
+    simp [h6]
+
+/-- SAME CANONICAL VALUES, per subset: the checked UNCOMPRESSED encoder (`encodeSubsetX`, the
+    hypothesis of the C03 round trip) accepts every subset alone, after any bits `pre`, and computes
+    the report and the canonical values that the compressed run has for that subset. -/
+theorem C05_walk_subset_canon {t : List Desc} {valss : List (List Val)}
+    {os : List SubsetOut} {canons : List (List Val)} {b : Bits}
+    (h : encodeCompressedT t valss = .ok (os, canons, b))
+    {k : Nat} {row : List Val} (hk : valss[k]? = some row) (pre : Bits) :
+    ∃ o c b', encodeSubsetX t row pre = .ok (o, c, b') ∧ os[k]? = some o ∧ canons[k]? = some c := by
+  unfold encodeCompressedT at h
+  cases hw : walkList encPrimsCT t { bits := [], vals := valss, forced := ghostInit valss } with
+  | error e => rw [hw] at h; cases h
+  | ok s =>
+    rw [hw] at h
+    cases h
+    obtain ⟨t', ht', h1, h2, h3, h4, _, ⟨g, hg, haux⟩⟩ :=
+      walk_sim (primSim_ct_ux k) (s := { bits := [], vals := valss, forced := ghostInit valss })
+        (t := { bits := pre, vals := [row] })
+        ⟨rfl, rfl, rfl, rfl, ⟨row, hk, rfl⟩, ⟨(0, []), by simp [ghostInit, hk], rfl⟩⟩ hw
+    refine ⟨{ descs := t'.descs.reverse, vals := row, links := t'.links.reverse }, t'.aux.reverse,
+      t'.bits, ?_, ?_, ?_⟩
+    · unfold encodeSubsetX
+      rw [ht']
+    · simp only [List.getElem?_map, hk, Option.map_some, h2, h3]
+    · simp only [List.getElem?_map, hg, Option.map_some, haux]
+
+/-- the checked uncompressed encoder accepts the whole data section, same report, same canonical values -/
+theorem C05_walk_dataUX {t : List Desc} {valss : List (List Val)}
+    {os : List SubsetOut} {canons : List (List Val)} {b : Bits}
+    (h : encodeCompressedT t valss = .ok (os, canons, b)) :
+    ∃ bitsU, encodeDataUX t valss = .ok (os, canons, bitsU) := by
+  obtain ⟨hlo, hlc⟩ := C05_walk_T_lengths h
+  have key : ∀ (n : Nat) (pre : Bits),
+      ∃ bits, encodeSubsetsX t (valss.drop n) pre = .ok (os.drop n, canons.drop n, bits) := by
+    intro n
+    induction hm : valss.length - n generalizing n with
+    | zero =>
+      intro pre
+      rw [List.drop_eq_nil_of_le (by omega), List.drop_eq_nil_of_le (by omega),
+        List.drop_eq_nil_of_le (by omega)]
+      exact ⟨pre, rfl⟩
+    | succ m ih =>
+      intro pre
+      have hlt : n < valss.length := by omega
+      obtain ⟨o, c, b', he, ho, hc⟩ :=
+        C05_walk_subset_canon h (k := n) (row := valss[n]) (by simp [hlt]) pre
+      obtain ⟨bits, hb⟩ := ih (n + 1) (by omega) b'
+      have hon : o = os[n]'(by omega) := by
+        rw [List.getElem?_eq_getElem (by omega)] at ho
+        exact (Option.some.inj ho).symm
+      have hcn : c = canons[n]'(by omega) := by
+        rw [List.getElem?_eq_getElem (by omega)] at hc
+        exact (Option.some.inj hc).symm
+      rw [List.drop_eq_getElem_cons hlt, List.drop_eq_getElem_cons (by omega : n < os.length),
+        List.drop_eq_getElem_cons (by omega : n < canons.length)]
+      refine ⟨bits, ?_⟩
+      simp only [encodeSubsetsX, he, hb, hon, hcn]
+  obtain ⟨bits, hb⟩ := key 0 []
+  have hb0 : encodeSubsetsX t valss [] = .ok (os, canons, bits) := by simpa using hb
+  exact ⟨bits.reverse, by simp [encodeDataUX, hb0]⟩
+
+/-- TRANSPARENCY OF COMPRESSION (C05, walk level).  For value lists accepted by the compressed
+    encoder checked for transparency: both encoders accept them and report the same labels, values
+    and links; and both decoders, run on the respective bits followed by anything, consume exactly
+    those bits and return THE SAME list of subsets — descriptor labels, attribute links and values
+    (the canonical values `canons`). -/
+theorem C05_walk_transparent {t : List Desc} {valss : List (List Val)}
+    {os : List SubsetOut} {canons : List (List Val)} {b : Bits}
+    (h : encodeCompressedT t valss = .ok (os, canons, b)) :
+    ∃ bitsU,
+      encodeData t true valss = .ok (os, b.reverse) ∧
+      encodeData t false valss = .ok (os, bitsU) ∧
+      ∀ rest,
+        decodeData t true valss.length (b.reverse ++ rest) = .ok (withCanon os canons, rest) ∧
+        decodeData t false valss.length (bitsU ++ rest) = .ok (withCanon os canons, rest) := by
+  obtain ⟨bitsU, hU⟩ := C05_walk_dataUX h
+  obtain ⟨heU, hdU⟩ := C03_walk_roundtrip_data hU
+  obtain ⟨heC, hdC⟩ := C05_walk_compressed_roundtrip h
+  refine ⟨bitsU, by simp [encodeData, heC], heU, fun rest => ⟨?_, hdU rest⟩⟩
+  simpa [decodeData] using hdC rest
+
+/-- encode, then decode what was written: the subsets as a reader of the message sees them -/
+def roundTripData (tmpl : List Desc) (compressed : Bool) (valss : List (List Val)) : CM (List SubsetOut) :=
+  match encodeData tmpl compressed valss with
+  | .error e => .error e
+  | .ok (_, bits) => match decodeData tmpl compressed valss.length bits with
+    | .error e => .error e
+    | .ok (os, _) => .ok os
+
+/-- TRANSPARENCY as an equation: the same subsets encoded compressed and uncompressed decode to
+    identical values, descriptor labels and attribute links. -/
+theorem C05_walk_transparent_eq {t : List Desc} {valss : List (List Val)}
+    {os : List SubsetOut} {canons : List (List Val)} {b : Bits}
+    (h : encodeCompressedT t valss = .ok (os, canons, b)) :
+    roundTripData t true valss = roundTripData t false valss ∧
+      roundTripData t true valss = .ok (withCanon os canons) := by
+  obtain ⟨bitsU, heC, heU, hd⟩ := C05_walk_transparent h
+  obtain ⟨hdC, hdU⟩ := hd []
+  simp only [List.append_nil] at hdC hdU
+  simp only [roundTripData, heC, heU, hdC, hdU, and_self]
 
 end Bufr
